@@ -384,6 +384,29 @@ def agentGet (s : ESpace) (a : Aid) : Except Err Pos := if s.gone a then .error 
 def agentSet (s : ESpace) (a : Aid) (p : Pos) : Except Err ESpace :=
   if s.gone a then .error .attr else setPos s a p
 
+/-- `agent.position = value` with the state returned also when the call raises.  `writeFirst = false` is the code as it is
+    (validate / wrap, then the one write into the row); `writeFirst = true` is a setter that stores the value in the row
+    before it validates it — the order a rejected assignment must not have; kept so that "a rejected assignment changes
+    nothing" is a statement that can fail. -/
+def agentSetW (writeFirst : Bool) (s : ESpace) (a : Aid) (p : Pos) : ESpace × Except Err Unit :=
+  if s.gone a then (s, .error .attr)
+  else if writeFirst then
+    match s.a2i a with
+    | none => (s, .error .key)
+    | some i =>
+      if i < s.view then
+        let s1 : ESpace := { s with buf := upd s.buf i p }
+        if inBounds s.cfg.dims p then (s1, .ok ())
+        else if s.cfg.torus then ({ s with buf := upd s.buf i (torusCorrect s.cfg.dims p) }, .ok ())
+        else (s1, .error .oob)
+      else (s, .error .index)
+  else
+    if inBounds s.cfg.dims p || s.cfg.torus then
+      match setPos s a p with
+      | .error e => (s, .error e)
+      | .ok s' => (s', .ok ())
+    else (s, .error .oob)
+
 /-- `agent.remove()`: `Agent.remove` (deregistration from the model, idempotent), `space._remove_agent(self)`,
     then `self.space = None` -/
 def agentRemove (s : ESpace) (a : Aid) : Except Err ESpace :=
@@ -412,6 +435,23 @@ def agentIadd (s : ESpace) (a : Aid) (v : Pos) : Except Err ESpace :=
   match agentGet s a with
   | .error e => .error e
   | .ok p => agentSet s a (vadd p v)
+
+/-- `agent.position += v` statement by statement, the state returned also when the call raises (as `move` does for the
+    legacy space): `tmp = agent.position` (the getter), `tmp += v` (`ndarray.__iadd__` writes into whatever the getter
+    handed out), `agent.position = tmp` (the setter).  `view = false` is the code as it is (repair CS2: the getter returns a
+    copy, so the `+=` touches no state); `view = true` is the code before the repair (the getter returned a view of the
+    agent's row: the sum was in the array before the setter looked at it) — kept so that "a rejected `+=` changes nothing"
+    is a statement that can fail. -/
+def agentIaddW (view : Bool) (s : ESpace) (a : Aid) (v : Pos) : ESpace × Except Err Unit :=
+  match agentGet s a with
+  | .error e => (s, .error e)
+  | .ok p =>
+    let sum := vadd p v
+    let s1 : ESpace :=
+      if view then (match s.a2i a with | some i => { s with buf := upd s.buf i sum } | none => s) else s
+    match agentSet s1 a sum with
+    | .error e => (s1, .error e)
+    | .ok s2 => (s2, .ok ())
 
 /-- `agent.position[j] = x`: a write into the copy the getter returned; the space is not involved
     (the result type has no state) -/
@@ -486,6 +526,13 @@ def agentSetV (s : ESpace) (a : Aid) (p : Pos) : Except Err ESpace :=
     | .error e => .error e
     | .ok q => setPos s a q
 
+/-- … with the state returned also on an exception (what the driver runs) -/
+def agentSetVW (writeFirst : Bool) (s : ESpace) (a : Aid) (p : Pos) : ESpace × Except Err Unit :=
+  if s.gone a then (s, .error .attr)
+  else match bcast s.nd p with
+    | .error e => (s, .error e)
+    | .ok q => agentSetW writeFirst s a q
+
 /-- `agent.position += v` for a `v` of any length (the getter, then `+=` on the copy, then the setter) -/
 def agentIaddV (s : ESpace) (a : Aid) (v : Pos) : Except Err ESpace :=
   match agentGet s a with
@@ -494,6 +541,16 @@ def agentIaddV (s : ESpace) (a : Aid) (v : Pos) : Except Err ESpace :=
     match bcast s.nd v with
     | .error e => .error e
     | .ok v' => agentSet s a (vadd q v')
+
+/-- … statement by statement with the state returned also on an exception (what the driver runs): a `v` numpy cannot
+    broadcast makes `tmp += v` raise before anything is written, whatever the getter handed out -/
+def agentIaddVW (view : Bool) (s : ESpace) (a : Aid) (v : Pos) : ESpace × Except Err Unit :=
+  match agentGet s a with
+  | .error e => (s, .error e)
+  | .ok _ =>
+    match bcast s.nd v with
+    | .error e => (s, .error e)
+    | .ok v' => agentIaddW view s a v'
 
 /-- `space.agent_positions[i] = p` for a `p` of any length (the index is looked at first) -/
 def rawWriteV (s : ESpace) (i : Nat) (p : Pos) : Except Err ESpace :=
